@@ -7,10 +7,14 @@ tell: the clock, the pending `ChannelUnbusyNotif` events, the `MessageExitingCon
 events scheduled so far, plus ghost history (who was offered / started / dropped).
 A script is a list of `Op`s in dispatch order: `offer t m` — `send_message` is called at
 time `t` (from a handler or from a `MessageExitingConnection` event); `unbusy` — the kernel
-dispatches the earliest pending `ChannelUnbusyNotif`.  `step` rejects scripts that are not
-consistent with event order (time running backwards, an offer later than a pending unbusy);
-an offer at the *same instant* as a pending unbusy may come before or after it — both orders
-are scripts.
+dispatches the pending `ChannelUnbusyNotif`; `deliver` — the kernel dispatches a pending
+`MessageExitingConnection` of this channel (the message leaves towards the receiver).
+`step` rejects scripts that are not consistent with event order: time running backwards, an
+offer later than a pending event of the channel, and a dispatch of a channel event that is not
+the one the kernel would take first among the channel's pending events (`kq`, `kmin`: the
+tie rule of C01/C03 — events scheduled for the current instant first, then by timestamp,
+then in scheduling order).  An offer at the *same instant* as a pending event may come before
+or after it — both orders are scripts.
 -/
 import Desverif.Spec.ChanSrv
 namespace ChanRun
@@ -50,6 +54,36 @@ structure Exit where
   id : Nat
 deriving Repr, DecidableEq
 
+/-- a pending kernel event of this channel -/
+inductive KEv
+  | unbusy (t : Nat)
+  | exit (e : Exit)
+deriving Repr, DecidableEq
+
+def KEv.time : KEv → Nat
+  | .unbusy t => t
+  | .exit e => e.time
+
+/-- 0: scheduled for the instant it was scheduled at (the kernel's current-instant FIFO);
+    1: scheduled with a positive delay (an unbusy notification always is) -/
+def KEv.rank : KEv → Nat
+  | .unbusy _ => 1
+  | .exit e => if e.sched = e.time then 0 else 1
+
+/-- strictly earlier in the kernel's dispatch order, scheduling order aside -/
+def KEv.before (a b : KEv) : Prop := a.time < b.time ∨ (a.time = b.time ∧ a.rank < b.rank)
+
+instance (a b : KEv) : Decidable (a.before b) := by unfold KEv.before; exact inferInstance
+
+/-- the event the kernel dispatches first among `l` (given in scheduling order): the minimum in
+    dispatch order, the earliest scheduled among equals -/
+def kmin : List KEv → Option KEv
+  | [] => none
+  | e :: l =>
+    match kmin l with
+    | none => some e
+    | some m => if m.before e then some m else some e
+
 structure World (σ : Type) where
   clock : Nat
   chan : σ
@@ -59,10 +93,12 @@ structure World (σ : Type) where
   started : List (Nat × Msg)    -- ghost: (start of transmission, message), in order
   dropBusy : List Msg           -- ghost
   dropFull : List Msg           -- ghost
+  kq : List KEv                 -- the channel's pending kernel events, in scheduling order
+  delivered : List Nat          -- ghost: ids of the messages that left the channel, in order
 
 def World.init (I : Impl σ) : World σ :=
   { clock := 0, chan := I.init, pend := [], exits := [], offered := [], started := [],
-    dropBusy := [], dropFull := [] }
+    dropBusy := [], dropFull := [], kq := [], delivered := [] }
 
 def unbusyTimes (effs : List Eff) : List Nat :=
   effs.filterMap fun | .unbusyAt t => some t | _ => none
@@ -76,14 +112,20 @@ def withFate (f : Fate) (l : List (Msg × Fate)) : List Msg :=
 def startedOf (now : Nat) (l : List (Msg × Fate)) : List (Nat × Msg) :=
   (withFate .started l).map fun m => (now, m)
 
+/-- the kernel events of a list of sink effects handed over at time `now`, in order -/
+def kevs (now : Nat) (effs : List Eff) : List KEv :=
+  effs.map fun | .unbusyAt t => .unbusy t | .exitAt t id => .exit ⟨now, t, id⟩
+
 inductive Op
   | offer (t : Nat) (m : Msg)
   | unbusy
+  | deliver
 deriving Repr, DecidableEq
 
 inductive RErr
   | past          -- the script lets time run backwards
-  | order         -- an offer later than a pending unbusy notification
+  | order         -- an offer later than a pending event, or a dispatch the kernel would not make
+  | noExit        -- no exit event is pending
   | noUnbusy      -- no unbusy notification is pending
   | chan (e : Err)  -- the channel model hit a state the code cannot reach
 deriving Repr, DecidableEq
@@ -99,9 +141,10 @@ def popMin (l : List Nat) : Option (Nat × List Nat) :=
   | some u => some (u, l.erase u)
 
 /-- bookkeeping after the channel answered with effects `effs` and fates `l` at time `now` -/
-def advance (w : World σ) (now : Nat) (c : σ) (pend : List Nat) (effs : List Eff)
+def advance (w : World σ) (now : Nat) (c : σ) (pend : List Nat) (kq : List KEv) (effs : List Eff)
     (l : List (Msg × Fate)) (offered : List Msg) : World σ :=
   { clock := now, chan := c, pend := pend ++ unbusyTimes effs,
+    kq := kq ++ kevs now effs, delivered := w.delivered,
     exits := w.exits ++ exitsOf now effs,
     offered := w.offered ++ offered,
     started := w.started ++ startedOf now l,
@@ -112,18 +155,27 @@ def step (I : Impl σ) (mt : Metrics) (w : World σ) : Op → Except RErr (World
   | .offer t m =>
     if t < w.clock then .error .past
     else if w.pend.any (· < t) then .error .order
+    else if w.kq.any (·.time < t) then .error .order
     else
       let r := I.offer mt w.chan t m
-      .ok (advance w t r.1 w.pend r.2.1 [(m, r.2.2)] [m])
+      .ok (advance w t r.1 w.pend w.kq r.2.1 [(m, r.2.2)] [m])
   | .unbusy =>
     match popMin w.pend with
     | none => .error .noUnbusy
     | some (u, rest) =>
       if u < w.clock then .error .past
+      else if kmin w.kq ≠ some (.unbusy u) then .error .order
       else
         match I.unbusy mt w.chan u with
         | .error e => .error (.chan e)
-        | .ok r => .ok (advance w u r.1 rest r.2.1 r.2.2 [])
+        | .ok r => .ok (advance w u r.1 rest (w.kq.erase (.unbusy u)) r.2.1 r.2.2 [])
+  | .deliver =>
+    match kmin w.kq with
+    | some (.exit e) =>
+      if e.time < w.clock then .error .past
+      else .ok { w with clock := e.time, kq := w.kq.erase (.exit e), delivered := w.delivered ++ [e.id] }
+    | some (.unbusy _) => .error .order
+    | none => .error .noExit
 
 def runFrom (I : Impl σ) (mt : Metrics) : World σ → List Op → Except RErr (World σ)
   | w, [] => .ok w
